@@ -25,7 +25,7 @@ Theorem wildcard_secure_sound sname signer ce ngs n3gs :
   (exists g, In g ngs /\ usable g signer /\ covers sname g /\
              name_eqb ce (nsec_closest_encloser sname (g_owner g) (g_next g)) = true) \/
   (exists c g oh, child_of_ce sname ce = Some c /\ In g n3gs /\ usable3 ci cb g signer oh /\
-             nsec3_in_range (hash_of H g c) oh (h_next g) = true /\ h_optout g = false).
+             covers3 H g oh c /\ h_optout g = false).
 Proof.
   unfold wildcard_answer_state. destruct (star_name ce) as [star|] eqn:Es; [|discriminate].
   assert (Hs : star = star_label :: ce).
@@ -42,7 +42,8 @@ Proof.
     destruct (nsec3_for_not_exists_no_ce H ci cb c n3gs signer) as [[r2 e2]| | |] eqn:N3; simpl; try discriminate.
     pose proof (no_ce_sound H ci cb c n3gs signer r2 e2 N3) as Q.
     destruct r2; simpl; try discriminate.
-    intros _. right. right. destruct Q as (g & oh & I0 & U & R & O). exists c, g, oh. repeat split; assumption.
+    intros _. right. right. destruct Q as (g & oh & I0 & U & R & O). exists c, g, oh.
+    split; [reflexivity|]. split; [exact I0|]. split; [exact U|]. split; [exact R|exact O].
 Qed.
 
 (* the panic of get_child_of_ce needs a closest encloser that is not a proper suffix-length of the name;
